@@ -52,6 +52,8 @@ def scenario(draw, n, mode):
         guard += 1
         if guard < 40 and (kk == 0. or any(abs(kk - x) <= 0.05 * max(abs(kk), abs(x)) for x in ks)):
             continue
+        while any(abs(w - x) <= 1e-6 * x for x in wavs):
+            w = w * 1.0007   # two filters never share a wavelength (a cube cannot tabulate one wavelength twice)
         wavs.append(w)
         ks.append(kk)
     filters = [{'name': 'F%d' % j, 'wav': w} for j, w in enumerate(wavs)]
@@ -160,7 +162,7 @@ class Env(object):
         lo, hi = sc['av_range']
         if sc['mode'] == '2d':
             return [of.Ref2D(bands, sc['grid']['logflux'][m], self.k, lo, hi) for m in range(len(sc['grid']['names']))]
-        return [[of.Ref3D(bands, sc['grid']['flux'][m], sc['grid']['apertures'], sc['theta'], self.k, lo, hi, g)
+        return [[of.Ref3D(bands, gen.tables_3d(sc, m)[0], gen.tables_3d(sc, m)[1], sc['theta'], self.k, lo, hi, g)
                  for m in range(len(sc['grid']['names']))] for g in self.grids]
 
     def check_reference(self, src, info, vec):
